@@ -16,7 +16,14 @@ import (
 	"golang.org/x/tools/go/ssa/ssautil"
 )
 
-const repoRoot = "/repo"
+// repoRoot is the tree the encoding is generated from: /repo, unless VERIF_REPO names a scratch worktree
+// (used by tools/tryseed.sh to run a check against a seeded change without touching /repo).
+var repoRoot = func() string {
+	if r := os.Getenv("VERIF_REPO"); r != "" {
+		return r
+	}
+	return "/repo"
+}()
 const modPath = "github.com/AliceO2Group/Control"
 
 // Config holds the bounds and switches of one harness entry.
@@ -32,6 +39,7 @@ type Config struct {
 	Timers         string // lazy | eager | never
 	Race           bool
 	MapOrderPerm   int
+	MapOrderIn     []string
 	AtomicsVisible bool
 	DeadlockOK     bool
 	SleepSets      bool
@@ -132,6 +140,8 @@ func (c *Config) apply(opts []string) error {
 			c.Race = v == "1" || v == "true"
 		case "maporder":
 			c.MapOrderPerm = atoi()
+		case "maporderin":
+			c.MapOrderIn = append(c.MapOrderIn, strings.Split(v, ",")...)
 		case "atomics":
 			c.AtomicsVisible = v == "1" || v == "true" || v == "visible"
 		case "nosched":
